@@ -236,6 +236,27 @@ def r183(ctx, res):
                           construct=short + " promotion bypass")
 
 
+def r185_fresh_constants(ctx, res):
+    """zero() and the unit vectors are what their names say on *every* call: each call builds a fresh Vector"""
+    repo = ctx.repo
+    ef = ctx.effects
+    for name in ("zero", "x_unit_vector", "y_unit_vector", "z_unit_vector"):
+        m = repo.cls("Vector").lookup(name)
+        s_ = ef.summ[m.qual]
+        shared = sorted(r for r in (s_.retS | s_.retE) if r.startswith("G:"))
+        rets = [r for r in walk_local(m.node) if isinstance(r, ast.Return)]
+        fresh_ctor = bool(rets) and all(isinstance(r.value, ast.Call) and txt(r.value.func) in ("cls", "Vector") for r in rets)
+        ok = not m.memoized and not shared and fresh_ctor
+        why = "builds a new Vector on every call" if ok else (
+            "memoised (%s)" % ", ".join(m.decorators) if m.memoized else ("returns shared state %s" % shared if shared else "does not construct a new Vector"))
+        res.ob("R18.5", m.where(), "Vector.%s() returns a fresh object" % name, ok, why)
+        if not ok:
+            res.violation("R18.5", m, m.node,
+                          "Vector.%s() does not build a new Vector per call (%s): Vectors are mutable (v[i] = x, Line.move on a stored "
+                          "support vector), so after one caller changes its copy the constant is no longer what its name says" % (name, why),
+                          construct="Vector.%s shared instance" % name)
+
+
 def run(ctx, res):
     res.explanation = (
         "The real code of the vector algebra (vector.py, point.py, util.py) is interpreted over symbolic coordinates "
@@ -257,6 +278,7 @@ def run(ctx, res):
         else:
             raise
     r183(ctx, res)
+    r185_fresh_constants(ctx, res)
     k = check_acos(ctx, res, ctx.repo.fn("Vector.angle"), "R18.4")
     ctx.require(res, "R18.4", k, 1, "acos sites")
     res.undecided_ob("|normalized(v)| = 1 and same direction over magnitudes 1e-6..1e6; angle in [0, pi] numerically; Decimal")
